@@ -241,6 +241,7 @@ fn gen_cfg(rng: &mut Rng) -> SimConfig {
         _ => Strategy::Pct { d: 2, horizon: 150 },
     };
     cfg.budget = 30_000;
+    cfg.workers = *rng.pick(&[None, None, None, Some(1usize), Some(2)]);
     cfg
 }
 
